@@ -615,8 +615,9 @@ func (r *c03Run) do(o c03Op) int64 {
 	return cls
 }
 
-func (r *c03Run) appendDelta() {
-	snap := r.snapshot()
+func (r *c03Run) appendDelta() { r.appendDeltaSnap(r.snapshot()) }
+
+func (r *c03Run) appendDeltaSnap(snap map[c03Sid]c03Entry) {
 	keys := make([]c03Sid, 0, len(snap)+len(r.last))
 	seen := map[c03Sid]bool{}
 	for k := range snap {
@@ -1886,6 +1887,179 @@ func c03Concurrent(t testing.TB, out *verifh.Out, rd *verifh.Rand, workers, step
 	out.Case(line)
 }
 
+// ---- concurrent BURSTS on the conn limiter, reported as a sequential history ---------------------
+//
+// The per-subnet cap "executed from many goroutines at once": n goroutines, released together by
+// a barrier, call OpenConnection with endpoints of the SAME subnet rule (same address, or hosts of
+// one /24, or one network prefix) whose cap is 1..3.  When all have returned (quiescence; every
+// admitted connection is still open, so they ARE simultaneously open) the burst is written into
+// an ordinary sequential case (kind 3) as the history "the admitted calls first, then the refused
+// ones" - with a correct limiter that is a legal linearisation (no connection is closed during a
+// burst, so under the limiter's lock every admission precedes every refusal) - and judged by the
+// proved sequential monitor: CL_CAP (open connections of the governing rule <= cap, c03_subnet_cap),
+// the justification of the refusals (cap reached) and conformance with the model.
+// What is observed: every answer, every admitted connection's own scope, and the snapshot at
+// quiescence (reported with the LAST admitted call).  What is NOT observed but computed by the
+// harness: the entries of system / transient for the admitted calls before the last one (there is
+// no "between two calls" inside a burst) - they are the pre-burst entry plus the own vectors of
+// the connections listed so far (refcnt + 1 each).  Limits are generous: only the limiter refuses.
+func (r *c03Run) burst(ops []c03Op) (admitted []int) {
+	type res struct {
+		c   *connectionScope
+		err error
+	}
+	n := len(ops)
+	out := make([]res, n)
+	base := r.snapshot()
+	var ready, wg sync.WaitGroup
+	start := make(chan struct{})
+	for g := 0; g < n; g++ {
+		ready.Add(1)
+		wg.Add(1)
+		go func(g int) {
+			defer wg.Done()
+			o := ops[g]
+			dir := network.DirOutbound
+			if o.inb {
+				dir = network.DirInbound
+			}
+			addr := o.ep.multiaddr()
+			ready.Done()
+			<-start
+			cs, err := r.rm.OpenConnection(dir, o.fd, addr)
+			if err == nil {
+				out[g].c = cs.(*connectionScope)
+			}
+			out[g].err = err
+		}(g)
+	}
+	ready.Wait()
+	close(start)
+	wg.Wait()
+	var order []int
+	for g := 0; g < n; g++ {
+		if out[g].err == nil {
+			order = append(order, g)
+		}
+	}
+	m := len(order)
+	for g := 0; g < n; g++ {
+		if out[g].err != nil {
+			order = append(order, g)
+		}
+	}
+	shared := []c03Sid{{0, 0, 0}, {1, 0, 0}}
+	var sum network.ScopeStat
+	for k, g := range order {
+		o := ops[g]
+		aflag := int64(0)
+		if out[g].err == nil {
+			c := out[g].c
+			r.conns[o.i] = c
+			admitted = append(admitted, o.i)
+			if c.isAllowlisted {
+				aflag = 1
+			}
+		}
+		cls := c03Class(out[g].err)
+		r.line = append(r.line, o.wire()...)
+		r.line = append(r.line, cls, aflag)
+		snap := r.snapshot()
+		if k < m-1 {
+			own := c03Read(out[g].c.resourceScope).st
+			sum.Memory += own.Memory
+			sum.NumStreamsInbound += own.NumStreamsInbound
+			sum.NumStreamsOutbound += own.NumStreamsOutbound
+			sum.NumConnsInbound += own.NumConnsInbound
+			sum.NumConnsOutbound += own.NumConnsOutbound
+			sum.NumFD += own.NumFD
+			for _, sid := range shared {
+				e := base[sid]
+				e.st.Memory += sum.Memory
+				e.st.NumStreamsInbound += sum.NumStreamsInbound
+				e.st.NumStreamsOutbound += sum.NumStreamsOutbound
+				e.st.NumConnsInbound += sum.NumConnsInbound
+				e.st.NumConnsOutbound += sum.NumConnsOutbound
+				e.st.NumFD += sum.NumFD
+				e.ref += k + 1
+				snap[sid] = e
+			}
+		}
+		r.appendDeltaSnap(snap)
+		r.nops++
+		r.out.Cover(fmt.Sprintf("burst.op.class%d", cls))
+	}
+	r.out.Cover("burst.rounds")
+	r.out.Cover(fmt.Sprintf("burst.admitted.%d", m))
+	if m < n {
+		r.out.Cover("burst.some_refused_by_cap")
+	}
+	return admitted
+}
+
+func c03SubnetBurst(t testing.TB, out *verifh.Out, rd *verifh.Rand, rounds int) {
+	cfg := c03BaseCfg()
+	for i := range cfg.lims {
+		cfg.lims[i].Conns, cfg.lims[i].ConnsInbound, cfg.lims[i].ConnsOutbound, cfg.lims[i].FD = 1000, 1000, 1000, 1000
+	}
+	cp := 1 + rd.Intn(3)
+	mode := rd.Intn(3)
+	switch mode {
+	case 0: // one address, /32 rule
+		cfg.sub4 = [][2]int{{32, cp}}
+	case 1: // hosts of one /24
+		cfg.sub4 = [][2]int{{24, cp}}
+	default: // a network prefix limit (takes precedence over the subnet rules)
+		cfg.sub4 = [][2]int{{32, 8}}
+		cfg.pre4 = []c03PreLim{{p: c03Prefix{w: [4]uint32{10<<24 | 9<<16}, len: 16}, cap: cp}}
+	}
+	r := c03NewRun(t, out, cfg, 0)
+	defer r.close()
+	next := 0
+	open := map[int][]int{} // subnet -> open conn ids
+	for round := 0; round < rounds; round++ {
+		sn := rd.Intn(2)
+		n := 2 + rd.Intn(7)
+		ops := make([]c03Op, n)
+		for g := range ops {
+			var w uint32
+			switch mode {
+			case 0:
+				w = 10<<24 | 8<<16 | uint32(sn)<<8 | 1
+			case 1:
+				w = 10<<24 | 8<<16 | uint32(sn)<<8 | uint32(1+rd.Intn(200))
+			default:
+				w = 10<<24 | 9<<16 | uint32(rd.Intn(4))<<8 | uint32(1+rd.Intn(200))
+				sn = 0
+			}
+			ops[g] = c03Op{code: 1, i: next, inb: rd.Bool(), fd: rd.Bool(), ep: c03Ep{hasIP: true, w: [4]uint32{w}}}
+			next++
+		}
+		open[sn] = append(open[sn], r.burst(ops)...)
+		// close some (sometimes all) of the subnet's connections one by one, so that the next
+		// burst starts from 0 .. cap open connections
+		ids := open[sn]
+		keep := ids[:0]
+		all := rd.Chance(1, 3)
+		for _, i := range ids {
+			if all || rd.Bool() {
+				r.do(c03Op{code: 9, t: c03Sid{9, i, 0}})
+			} else {
+				keep = append(keep, i)
+			}
+		}
+		open[sn] = keep
+	}
+	for _, ids := range open {
+		for _, i := range ids {
+			r.do(c03Op{code: 9, t: c03Sid{9, i, 0}})
+		}
+	}
+	out.Cover("burst.cases")
+	out.Cover(fmt.Sprintf("burst.mode%d.cap%d", mode, cp))
+	r.emit()
+}
+
 // ---- case kind 5: concurrent run with MID-FLIGHT samples (Conc.v) ----------------------------
 //
 // Operations run in real goroutines against the real manager while a sampler goroutine reads
@@ -2809,6 +2983,12 @@ func TestVerifC03(t *testing.T) {
 		}
 		return
 	}
+	if os.Getenv("VERIF_C03_ONLY") == "burst" {
+		for i := 0; i < 150; i++ {
+			c03SubnetBurst(t, out, rd.Fork(), 8)
+		}
+		return
+	}
 	c03Corpus(t, out)
 	ncases, nconc := 1000, 16
 	if verifh.Tier() == "thorough" {
@@ -2839,6 +3019,13 @@ func TestVerifC03(t *testing.T) {
 	}
 	for i := 0; i < nfirst; i++ {
 		c03FirstUse(t, out, rd.Fork(), 12)
+	}
+	nburst := 150
+	if verifh.Tier() == "thorough" {
+		nburst = 1500
+	}
+	for i := 0; i < nburst; i++ {
+		c03SubnetBurst(t, out, rd.Fork(), 8)
 	}
 	// the address plan really is what the model assumes
 	ep := c03Ep{hasIP: true, w: [4]uint32{10<<24 | 1<<16 | 1}}
